@@ -16,7 +16,7 @@ import (
 func init() {
 	register(&propDef{
 		ID:          "C05",
-		Explanation: "Decides, for package safehtml and the routing into it — not a CSS tokenisation of outputs: R1 every path on which a value sanitiser (each function stored in the per-property table, and the default) returns its input unchanged is dominated, for every piece the function splits the input into, by a whole-piece validator in rejecting position: an anchored-regex MatchString, or a ContainsAny rejection whose set contains at least the string/token terminators \" \\ and newline (prefix/suffix tests and url.Parse are not validators: they constrain the ends or the URL grammar, not the alphabet); R2 every validating pattern is anchored at both ends and its alphabet (over-approximated from the regexp syntax tree) excludes ; : { } ( ) \" ' \\ < > @ and line breaks; (thorough) no string accepted by the regular-value pattern contains /*, */ or // (product of the compiled program with a substring automaton); R3 css-component expressions are emitted as templ.SanitizeCSS(<constant name>, <expr>) and constant properties as Go string literals (GEM); every write of the style-attribute builder is HTML-escaped and its content comes from safehtml.SanitizeCSS / SanitizeCSSProperty / SanitizeStyleValue or is typed SafeCSS / SafeCSSProperty (SSA); the bypass in templ.SanitizeCSS is guarded by the reflect type test; R4 the property-name sanitiser returns a non-constant only after the identifier pattern matched, and an innocuous name forces the innocuous value; R5 the schemes compared in the url() check are within {http, https, mailto} and absolute URLs with other schemes are rejected; R6 the string-token escaper's arms cover NUL, <, \", \\, C0, DEL, C1, U+2028, U+2029. R7 a style attribute value passes exactly one HTML-escaping layer between the CSS sanitiser and the attribute (runtime writes and the generated sink are counted). NOT decided: CSS tokenisation of the emitted text by a browser.",
+		Explanation: "Decides, for package safehtml and the routing into it — not a CSS tokenisation of outputs: R1 every path on which a value sanitiser (each function stored in the per-property table, and the default) returns its input unchanged is dominated, for every piece the function splits the input into, by a whole-piece validator in rejecting position: an anchored-regex MatchString, or a ContainsAny rejection whose set contains at least the string/token terminators \" \\ and newline (prefix/suffix tests and url.Parse are not validators: they constrain the ends or the URL grammar, not the alphabet); R2 every validating pattern is anchored at both ends and its alphabet (over-approximated from the regexp syntax tree) excludes ; : { } ( ) \" ' \\ < > @ and line breaks; (thorough) no string accepted by the regular-value pattern contains /*, */ or // (product of the compiled program with a substring automaton); R3 css-component expressions are emitted as templ.SanitizeCSS(<constant name>, <expr>) and constant properties as Go string literals (GEM); every write of the style-attribute builder is HTML-escaped and its content comes from safehtml.SanitizeCSS / SanitizeCSSProperty / SanitizeStyleValue or is typed SafeCSS / SafeCSSProperty (SSA), and a write directly followed by the ':' separator (a property name) comes from the name sanitiser or the name result of the pair sanitiser; the bypass in templ.SanitizeCSS is guarded by the reflect type test; R4 the property-name sanitiser returns a non-constant only after the identifier pattern matched, and an innocuous name forces the innocuous value; R5 the schemes compared in the url() check are within {http, https, mailto} and absolute URLs with other schemes are rejected; R6 the string-token escaper's arms cover NUL, <, \", \\, C0, DEL, C1, U+2028, U+2029. R7 a style attribute value passes exactly one HTML-escaping layer between the CSS sanitiser and the attribute (runtime writes and the generated sink are counted). NOT decided: CSS tokenisation of the emitted text by a browser.",
 		Assumptions: []string{"regexp/syntax parses what regexp compiles", "a CSS string token ends only at its quote, at a newline, or through a backslash escape"},
 		Trusted:     []string{"go/types", "go/parser", "regexp/syntax", "x/tools go/packages, go/cfg, go/ssa"},
 		Run:         runC05,
@@ -206,7 +206,8 @@ func runC05(c *Ctx) {
 			continue
 		}
 		ord := 0
-		for _, s := range findSinks(fn) {
+		sinks := findSinks(fn)
+		for si, s := range sinks {
 			if s.Kind != "Builder.WriteString" {
 				continue
 			}
@@ -216,6 +217,31 @@ func runC05(c *Ctx) {
 			ok, why := accept(ls)
 			c.check(ok, "C05.R3", fmt.Sprintf("%s|style-write#%d", name, ord), c.pos(s.Pos), leavesString(ls),
 				fmt.Sprintf("%s: %s — a style attribute value must be sanitised (safehtml.SanitizeCSS / SanitizeStyleValue) or typed SafeCSS, then HTML-escaped (classified %s)", name, why, leavesString(ls)))
+			// a write directly followed by the ':' separator is a property NAME: only the name sanitiser (or the name result
+			// of the pair sanitiser) constrains it to an identifier; the declaration-list sanitiser accepts `a:b;c`
+			if si+1 < len(sinks) && sinks[si+1].Kind == "Builder.WriteRune" && sinks[si+1].Call.Block() == s.Call.Block() && len(sinks[si+1].Operands) == 1 {
+				if k, isK := sinks[si+1].Operands[0].(*ssa.Const); isK && k.Value != nil && k.Int64() == ':' {
+					nameOK, got := true, ""
+					for _, l := range ls {
+						if l.Kind != "ESCAPED" {
+							continue
+						}
+						for _, in := range l.Inner {
+							switch {
+							case in.Kind == "CONST":
+							case in.Kind == "CALL" && (strings.HasPrefix(in.Info, modPath+"/safehtml.SanitizeCSSProperty#") || strings.HasPrefix(in.Info, modPath+"/safehtml.SanitizeCSS#0")):
+							default:
+								nameOK, got = false, in.String()
+							}
+						}
+					}
+					if len(got) > 160 {
+						got = got[:160] + "…"
+					}
+					c.check(nameOK, "C05.R3", fmt.Sprintf("%s|style-write#%d|name-position", name, ord), c.pos(s.Pos), "the text before ':' is the output of the property-name sanitiser",
+						fmt.Sprintf("%s writes %s in property-name position (directly before ':'): only safehtml.SanitizeCSSProperty (or the name result of safehtml.SanitizeCSS) restricts a name to an identifier, so `color:red;background:url(x)` as a key becomes extra declarations", name, got))
+				}
+			}
 		}
 	}
 	if nw < 8 {
